@@ -163,7 +163,10 @@ def render(lut):
     L = ["(* GENERATED by gen/deplut.py from src/mc/transition/Transition.cpp on every run of C39 - do not edit. *)",
          "From Coq Require Import List.", "From SGV Require Import Mc.Trans.", "Import ListNotations.", "",
          "(* Transition::Type enumerators, in order: %s *)" % ", ".join("%d=%s" % (i, n) for i, n in enumerate(names)),
-         "Definition num_types : nat := %d." % len(names), "",
+         "Definition num_types : nat := %d." % len(names)] + [
+         "Definition T_%s : nat := %d." % (n, i) for i, n in enumerate(names) if n not in ("TESTANY", "WAITANY", "BARRIER_ASYNC_LOCK", "BARRIER_WAIT")] + [
+         "Definition types_as_in_Trans : bool := Nat.eqb T_TESTANY %d && Nat.eqb T_WAITANY %d && Nat.eqb T_BARRIER_ASYNC_LOCK %d && Nat.eqb T_BARRIER_WAIT %d."
+         % (names.index("TESTANY"), names.index("WAITANY"), names.index("BARRIER_ASYNC_LOCK"), names.index("BARRIER_WAIT")), "",
          "(* dependency_table[i][j] as the consteval builder chain computes it *)",
          "Definition dep_table : list (list action) := ["]
     rows = []
